@@ -172,6 +172,15 @@ type Cluster struct {
 	log         []*BReq
 	protoStrict bool
 	killProbes  int // close the connection instead of answering the next n CLUSTER NODES requests
+	probesServed int // CLUSTER NODES requests answered with the current generator
+}
+
+// ProbesServed returns how many CLUSTER NODES requests were answered since the
+// current reply generator was installed.
+func (cl *Cluster) ProbesServed() int {
+	cl.mu.Lock()
+	defer cl.mu.Unlock()
+	return cl.probesServed
 }
 
 // KillProbeConns makes the nodes drop the connection, without answering, on the
@@ -247,6 +256,7 @@ func (cl *Cluster) getHandler() Handler {
 func (cl *Cluster) SetNodesReply(f func(n *Node) []byte) {
 	cl.mu.Lock()
 	cl.nodesReply = f
+	cl.probesServed = 0
 	cl.mu.Unlock()
 }
 
@@ -528,6 +538,11 @@ func (bc *BConn) dispatch(args [][]byte, raw []byte) {
 		}
 		if f != nil {
 			a.Reply = f(bc.Node)
+			cl.mu.Lock()
+			if cl.nodesReply != nil {
+				cl.probesServed++
+			}
+			cl.mu.Unlock()
 		} else {
 			a.Reply = ErrReply("ERR This instance has cluster support disabled")
 		}
